@@ -1,4 +1,68 @@
 import IslaVerif.Model.Preds
+import IslaVerif.Proofs.C04
+/-
+C04 — structural predicates have their documented meaning for every pair of nodes.
+ONLY property theorems + non-vacuity examples live here; helper lemmas are in Proofs/C04.lean.
+The specifications (`DocBefore`, `NthSpec`, `LevelSpec`, …) are defined in Proofs/C04.lean
+section "Specifications" and repeated in comments here.
+-/
 namespace IslaVerif.C04
-theorem placeholder : True := trivial
+open IslaVerif IslaVerif.Preds
+
+/-- before(node_1, node_2): node_1 occurs strictly before node_2 in document order and neither is
+below the other: the paths diverge at some position, node_1 taking the smaller child index. -/
+theorem before_iff (p q : Path) : isBefore p q = true ↔ DocBefore p q := isBefore_iff p q
+
+/-- after(node_1, node_2): node_2 is before node_1 (in particular, neither is below the other). -/
+theorem after_iff (p q : Path) : isAfter p q = true ↔ DocBefore q p := isBefore_iff q p
+
+/-- before/after never hold between a node and one of its ancestors/descendants or itself -/
+theorem before_not_prefix (p q : Path) (h : isBefore p q = true) : ¬ p <+: q ∧ ¬ q <+: p :=
+  docBefore_not_prefix ((isBefore_iff p q).1 h)
+
+theorem same_iff (p q : Path) : isSamePosition p q = true ↔ p = q := by
+  simp [isSamePosition]
+
+theorem different_iff (p q : Path) : isDifferentPosition p q = true ↔ p ≠ q := by
+  simp [isDifferentPosition, isSamePosition]
+
+/-- inside(node_1, node_2): node_1 is in the subtree of node_2 (node_2's path is a prefix) -/
+theorem inside_iff (p q : Path) : inTree p q = true ↔ q <+: p := inTree_iff p q
+
+/-- direct_child(node_1, node_2) -/
+theorem child_iff (p q : Path) : isDirectChild p q = true ↔ ∃ i, p = q ++ [i] := isDirectChild_iff p q
+
+/-- nth(N, node_1, node_2): node_1 lies within node_2 and, in the pre-order enumeration of node_2's
+subtree, node_1 is the N-th node carrying node_1's (nonterminal) symbol. -/
+theorem nth_iff (isNT : String → Bool) (t : DTree) (n : Nat) (p q : Path) (u v : DTree)
+    (hu : t.get p = some u) (hv : t.get q = some v) (hnt : isNT u.sym = true) :
+    isNth isNT t n p q = .val true ↔ q <+: p ∧ NthSpec u.sym n (p.drop q.length) v.paths :=
+  isNth_iff isNT t n p q u v hu hv hnt
+
+/-- consecutive(node_1, node_2): node_1 is before node_2 and no other leaf of the tree lies
+strictly between them in document order. -/
+theorem consecutive_iff (t : DTree) (p q : Path) (u v : DTree)
+    (hu : t.get p = some u) (hv : t.get q = some v) :
+    consecutive t p q = .val true ↔
+      DocBefore p q ∧ ¬ ∃ l ∈ t.leaves, l.1 ≠ p ∧ l.1 ≠ q ∧ DocBefore p l.1 ∧ DocBefore l.1 q :=
+  consecutive_iff' t p q u v hu hv
+
+/-- level(PRED, NT, node_1, node_2): there is a common prefix of both paths that is empty or points to
+an NT node such that, below it, the proper ancestors of the two nodes satisfy PRED's condition on
+NT-labelled nodes (the commented definition in isla_predicates.py). -/
+theorem level_iff (t : DTree) (op : LevelOp) (nt : String) (p q : Path) :
+    levelCheck t op nt p q = true ↔ LevelSpec t op nt p q :=
+  levelCheck_iff t op nt p q
+
+/-! non-vacuity: concrete pairs incl. ancestor/descendant and identical ones -/
+example : isBefore [0, 1] [0, 2, 5] = true ∧ isBefore [0] [0, 1] = false ∧ isAfter [0, 1] [0] = false
+    ∧ isAfter [1] [0, 3] = true ∧ isBefore [1] [1] = false := by decide
+example : DocBefore [0, 1] [0, 2, 5] := ⟨[0], 1, 2, [], [5], rfl, rfl, by decide⟩
+
+def exTree : DTree :=
+  .node 0 "<s>" [.node 1 "<a>" [.node 2 "x" [], .node 3 "<a>" [.node 4 "y" []], .node 5 "z" []]]
+example : consecutive exTree [0, 0] [0, 1, 0] = .val true ∧ consecutive exTree [0, 0] [0, 2] = .val false := by decide
+example : isNth (fun s => s.toList.head? == some (Char.ofNat 60)) exTree 2 [0, 1] [] = .val true := by decide
+example : levelCheck exTree .GT "<a>" [0, 0] [0, 1, 0] = true ∧ levelCheck exTree .EQ "<a>" [0, 0] [0, 1, 0] = false := by decide
+
 end IslaVerif.C04
